@@ -79,7 +79,7 @@ func TestVerif_C32b(t *testing.T) {
 	rec := kit.Start("C32", "fault_enumeration",
 		"part b (proxy/server): rounds in which two administrators start together and each issues, for its own namespace, the calls of the admin handlers "+
 			"(Server.ReloadNamespacePrepare from a real Store, then Server.ReloadNamespaceCommit) on one real Manager, ungated; after each round the running configuration of both "+
-			"namespaces and of a bystander is compared with what the answers imply; non-trivial = rounds in which the two changes really overlapped (one of them was answered 'not prepared'); key = outcome pattern")
+			"namespaces and of a bystander is compared with what the answers imply; every round starts both changes together; key = the pattern of answers of the round (rounds in which one change was answered 'not prepared' are counted as rounds.overlapped)")
 	defer rec.Finish(t)
 	rec.Assume("the interleaving inside the proxy is left to the Go scheduler: this part samples schedules, it does not enumerate them")
 	log.SetGlobalLogger(c32bNullLog{})
